@@ -347,6 +347,17 @@ class AExitStack(object):
         return "<ExitStack %d callback(s)>" % len(self.callbacks)
 
 
+class AIter(object):
+    """A one-shot iterator (itertools.chain, iter(), map, zip ... of something):
+    whatever walks it first exhausts it; a second walk sees nothing."""
+
+    def __init__(self, source, what: str):
+        self.source, self.what, self.consumed = source, what, False
+
+    def __repr__(self):
+        return "<one-shot %s over %r%s>" % (self.what, self.source, ", exhausted" if self.consumed else "")
+
+
 class ANTType(object):
     """A namedtuple class (collections.namedtuple / typing.NamedTuple)."""
 
@@ -451,7 +462,7 @@ class Path(object):
         return v
 
 
-def explore(run: Callable[[Path], Outcome], cons: Constraints, limit: int = 400) -> List[Outcome]:
+def explore(run: Callable[[Path], Outcome], cons: Constraints, limit: int = 4000) -> List[Outcome]:
     results = []
     stack: List[List[object]] = [[]]
     n = 0
@@ -1117,6 +1128,10 @@ class Frame(object):
                 for t, x in zip(target.elts, v):
                     self.assign(t, x)
                 return
+            if isinstance(v, AList) and not v.generic and len(v.items) == len(target.elts) and not any(isinstance(t, ast.Starred) for t in target.elts):
+                for t, x in zip(target.elts, v.items):
+                    self.assign(t, x)
+                return
             if isinstance(v, Term) and not any(isinstance(t, ast.Starred) for t in target.elts):
                 # an opaque pair/tuple: its components are opaque too
                 for i, t in enumerate(target.elts):
@@ -1192,6 +1207,13 @@ class Frame(object):
                 return
             self.block(st.orelse)
             return
+        if isinstance(it, AIter):
+            if it.consumed:
+                I.path.effects.append(("exhausted-iterator", it.what, getattr(it.source, "name", repr(it.source))))
+                self.block(st.orelse)
+                return
+            it.consumed = True
+            it = it.source
         if isinstance(it, AFeatList):
             coll = it.rec.attrs.get("feature_coll")
             if coll is None:
@@ -2292,6 +2314,11 @@ def lib_getattr(fr: Frame, base, a: str, node):
         if a in ("is_3overhang", "is_5overhang", "is_blunt", "is_unknown", "catalyse"):
             return BoundMethod("enzyme", base, a)
         return Term(a, Term("cutter"))
+    if isinstance(base, AStruct) and base.kind == "re-match-const":
+        m = base.fields["m"]
+        if a in ("group", "start", "end", "span", "groups"):
+            return BoundMethod("py", lambda fr2, args, kwargs, node2, _a=a: getattr(m, _a)(*[x.c if isinstance(x, Aff) and x.is_const else x for x in args]), a)
+        fr.unsupported(node, "attribute %s of a match object" % a)
     if isinstance(base, AStruct):
         if base.kind == "slice":
             if a in ("start", "stop"):
@@ -2526,6 +2553,10 @@ def lib_super_call(fr: Frame, rec, name: str, args, kwargs, node):
             return r
     if name == "__new__":
         return rec
+    if name == "__init__" and isinstance(rec, AObj) and rec.name.startswith("exc:"):
+        # BaseException.__init__ keeps its arguments in .args
+        rec.attrs["args"] = tuple(args)
+        return None
     fr.unsupported(node, "super().%s on a library base" % name)
 
 
@@ -2661,6 +2692,13 @@ def lib_call(fr: Frame, dotted: str, args, kwargs, node):
         if not all(isinstance(x, str) for x in fields):
             fr.unsupported(node, "namedtuple fields %r" % (spec,))
         return ANTType(args[0], fields)
+    if dotted in ("re.match", "re.search", "re.fullmatch") and len(args) >= 2 and isinstance(args[0], str):
+        import re as _re
+
+        if isinstance(args[1], str) and all(isinstance(a, int) for a in args[2:]):
+            m = getattr(_re, short)(args[0], args[1], *args[2:])  # a pure library function of constants
+            return None if m is None else AStruct("re-match-const", m=m)
+        return Term(short, Term(repr(args[0])), _t(args[1]))
     if dotted == "contextlib.ExitStack" and not args and not kwargs:
         return AExitStack()
     if dotted == "builtins.isinstance":
@@ -2725,6 +2763,13 @@ def lib_call(fr: Frame, dotted: str, args, kwargs, node):
         return I.new_term("set")
     if dotted in ("builtins.sorted", "builtins.set", "builtins.frozenset", "builtins.tuple") and len(args) >= 1:
         return Term(short, _t(args[0]))
+    if dotted == "builtins.next" and args and isinstance(args[0], Term) and args[0].op in ("filter", "map"):
+        # the first element of a lazily filtered / mapped input collection: there may be none
+        if I.path.choose("next-of %r" % (args[0],), ["found", "exhausted"]) == "found":
+            return Term("first", args[0])
+        if len(args) > 1:
+            return args[1]
+        raise RaiseSig(AExc("StopIteration", [], {}))
     if dotted == "builtins.next" and args and isinstance(args[0], AScan):
         if args[0].items:
             return args[0].items[0]
@@ -2749,6 +2794,13 @@ def lib_call(fr: Frame, dotted: str, args, kwargs, node):
                 generic = generic or a.generic
             elif isinstance(a, (list, tuple, str)):
                 items.extend(list(a))
+            elif isinstance(a, ACollection):
+                # an input collection chained with other things: a one-shot iterator over "all of them"
+                hook = I.hooks.get("concat")
+                merged = hook(fr, a, args[-1], node) if hook is not None else NotImplemented
+                if merged is NotImplemented or merged is None:
+                    merged = ACollection("chain(%s)" % a.name, a.make_elem)
+                return AIter(merged, "itertools.chain")
             else:
                 fr.unsupported(node, "itertools.chain of %r" % (a,))
         out = AList(items, I.loop_depth)
@@ -2852,6 +2904,10 @@ def lib_call(fr: Frame, dotted: str, args, kwargs, node):
         return Term("shallow-copy", _t(v))
     if dotted == "copy.deepcopy":
         v = args[0]
+        if I.hooks.get("deepcopy_may_fail") and not isinstance(v, ASeq):
+            # T1: deepcopy of a value holding something that cannot be copied (a lock, a generator, an open handle) raises
+            if I.path.choose("deepcopy-fails", [False, True]):
+                raise RaiseSig(AExc("TypeError", ["cannot pickle object"], {}))
         if isinstance(v, dict):
             return DCDict(v)
         if isinstance(v, ASeq):
